@@ -46,11 +46,10 @@ def uniGo : Ansi → Nat → Text → List Nat → Text → List Text
       else uniGo r.1 st' (cur ++ [c]) (o :: os) cs
     | _, _ => uniGo r.1 st' (cur ++ [c]) opps cs
 
-/-- opportunities actually used. Pinned tree: filter, then drop the last *remaining* one. -/
+/-- opportunities actually used: the end-of-text opportunity is dropped by position
+    (`*idx < stripped.len()`), then the `-`/SHY filter is applied -/
 def usedOpps (stripped : Text) (opps : List Nat) : Option (List Nat) :=
-  match filterOpps stripped opps with
-  | some os => some os.dropLast
-  | none => none
+  filterOpps stripped (opps.filter (· < blen stripped))
 
 def findWordsUnicode (env : Env) (line : Text) : Option (List Word) :=
   let stripped := stripAnsi line
